@@ -28,8 +28,16 @@ def r02_1(ctx, run, rule='R02.1'):
         if p.end[0] != 'return':
             continue
         callee = [canon(e[1]).split('::')[-1] for e in p.calls() if canon(e[1]).split('::')[-1].startswith('parse_json_')]
+        if not callee:
+            # a value parser under another name: the crate-local call whose result this path returns
+            r_ = deref_all(p.ret) if p.ret is not None else None
+            if r_ is not None and r_[0] == 'call':
+                for e in p.calls():
+                    if e[4] == r_ and local_callee(e):
+                        callee = ['?' + canon(e[1]).split('::')[-1]]
         # the dispatched byte: the switch on *c
         atom = None
+        STARTS = set(b'ntf-0123456789"[{')
         for c in p.conds:
             t = c[0]
             if t[0] == 'deref' and c[1] in ('eq', 'ne'):
@@ -38,6 +46,15 @@ def r02_1(ctx, run, rule='R02.1'):
                 for s in (t[2], t[3]):
                     if s[0] == 'deref':
                         atom = s
+        if atom is None:
+            # the byte held by value (`next()` returning u8, a copied local): the term switched on the JSON start bytes
+            for c in p.conds:
+                t = c[0]
+                if t[0] in ('discr',) or (t[0] == 'bin'):
+                    continue
+                if (c[1] == 'eq' and c[2] in STARTS and not isinstance(c[2], bool)) or (c[1] == 'ne' and isinstance(c[2], tuple) and len(STARTS & set(x for x in c[2] if isinstance(x, int))) >= 3):
+                    atom = t
+                    break
         if atom is None:
             continue
         pf = PathFacts(p.conds)
@@ -52,10 +69,24 @@ def r02_1(ctx, run, rule='R02.1'):
            'parse_json_array': IntervalSet([(ord('['),) * 2]), 'parse_json_object': IntervalSet([(ord('{'),) * 2])}
     loc = f'{b.file}:{b.line}'
     allv = IntervalSet([])
+    if not table:
+        run.undecided(rule, b.path, 'first-byte', 'the byte the value parser dispatches on was not recognised (held in a form this rule does not read): not decided', loc)
+        return
+    renamed = {k: v for k, v in table.items() if k.startswith('?')}
     for k, v in exp.items():
         got = table.get(k)
         allv = allv.union(v)
         ok = got is not None and got == v
+        if got is None:
+            # entered through a parser this rule does not know by name?  the same byte set must then belong to exactly one renamed parser
+            cands = [rk for rk, rv in renamed.items() if rv == v]
+            if cands:
+                run.undecided(rule, b.path, f'first-byte[{k}]', f'no call of {k} was found; the bytes {v} enter {cands[0][1:]}() instead (renamed?): which parser handles them is not decided', loc)
+            elif renamed:
+                run.undecided(rule, b.path, f'first-byte[{k}]', f'no call of {k} was found and no other parser is entered for exactly {v}: not decided', loc)
+            else:
+                run.violation(rule, b.path, f'first-byte[{k}]', f'{k} is entered for first bytes {got}, RFC 8259 value starts are {v}', loc)
+            continue
         (run.proved if ok else run.violation)(rule, b.path, f'first-byte[{k}]', f'{v}' if ok else f'{k} is entered for first bytes {got}, RFC 8259 value starts are {v}', loc)
     err = table.get('Err', IntervalSet([]))
     ok = err == IntervalSet([(0, 255)]).intersect(allv.complement())
